@@ -4,6 +4,7 @@ package ugo
 
 import (
 	"context"
+	"sort"
 
 	"github.com/ozanh/ugo/internal/verifrt"
 )
@@ -167,5 +168,97 @@ func VerifC13Disabled() {
 		}
 	}
 	verifrt.AssertMsg(called == "", "disabled-builtin-never-called", pr.src+" called: "+called)
+	verifrt.Reached("end")
+}
+
+// verifAllBuiltinNames: every name in BuiltinsMap, sorted.
+func verifAllBuiltinNames() []string {
+	var names []string
+	for n := range BuiltinsMap {
+		if n == "" || n[0] == ':' {
+			continue // the compiler's private builtins are not identifiers
+		}
+		names = append(names, n)
+	}
+	sort.Strings(names)
+	return names
+}
+
+// VerifC13EveryName: the name dimension. Each single builtin name in
+// BuiltinsMap (a search-tree choice over all of them), alone or together with
+// one of two other names, is disabled; a reference to it from the top level,
+// from a nested closure, from an imported source module, from an expression
+// the optimizer evaluates, from a later Eval fragment or from a function
+// defined in an earlier fragment is a compile error, the same name declared
+// by the script itself compiles, and no produced Bytecode refers to the
+// builtin.
+func VerifC13EveryName() {
+	names := verifAllBuiltinNames()
+	name := names[verifrt.Choice("name", len(names))]
+	dis := []string{name}
+	switch verifrt.Choice("with", 3) {
+	case 1:
+		dis = append(dis, "len")
+	case 2:
+		dis = []string{"append", name}
+	}
+	st := NewSymbolTable()
+	st.DisableBuiltin(dis...)
+	mm := NewModuleMap()
+	mm.AddSourceModule("m", []byte(`return func() { return `+name+` }`))
+	opts := CompilerOptions{ModuleMap: mm, SymbolTable: st, NoOptimize: verifrt.Param("opt") == 0}
+	mustFail := true
+	var frags []string
+	switch verifrt.Param("shape") {
+	case 0:
+		frags = []string{`return ` + name}
+	case 1:
+		frags = []string{`f := func() { x := 1; return func() { return [x, ` + name + `] } }; return f`}
+	case 2:
+		frags = []string{`x := 1; if x { m := import("m"); return m }; return 0`}
+	case 3:
+		frags = []string{`const k = 2; for i := 0; i < 1; i++ { return k + 1 > 2 ? ` + name + ` : 0 }`}
+	case 4:
+		frags = []string{`a := 1`, `b := func() { return ` + name + ` }; return b`}
+	case 5:
+		frags = []string{`a := 1; return a`, `try { return a } finally { a = ` + name + ` }`}
+	case 6:
+		mustFail = false
+		frags = []string{name + ` := 5; f := func() { return ` + name + ` }; return f()`}
+	default:
+		mustFail = false
+		frags = []string{`f := func(` + name + `) { return ` + name + ` }; return f(1)`, `var ` + name + `; return ` + name}
+	}
+	failed := false
+	var bcs []*Bytecode
+	verifrt.NoPanic("compile-no-panic", func() {
+		if len(frags) == 1 {
+			bc, err := Compile([]byte(frags[0]), opts)
+			failed = err != nil
+			if bc != nil {
+				bcs = append(bcs, bc)
+			}
+			return
+		}
+		e := NewEval(opts, nil)
+		for _, f := range frags {
+			_, bc, err := e.Run(context.Background(), []byte(f))
+			if bc != nil {
+				bcs = append(bcs, bc)
+			}
+			if err != nil {
+				failed = true
+				break
+			}
+		}
+	})
+	verifrt.AssertMsg(failed == mustFail, "disabled-reference-is-a-compile-error", name)
+	for _, bc := range bcs {
+		for idx := range verifFindBuiltinRefs(bc) {
+			for _, n := range dis {
+				verifrt.AssertMsg(int(BuiltinsMap[n]) != idx, "no-disabled-builtin-in-bytecode", name)
+			}
+		}
+	}
 	verifrt.Reached("end")
 }
